@@ -84,9 +84,10 @@ theorem C05_gen_broken_guard :
       some [("Encode", true), ("EncodeElement", true), ("Send", true), ("SendElement", true)] ∧
     Generated.C05.holderGuard = some true := by decide
 
-/-- `internal/marshal` keeps no state between calls: no package-level variable (a pooled or
-cached buffer shared between calls and sessions is how one call's content ends up in
-another's element) -/
+/-- `internal/marshal` keeps no state between calls: no package-level variable other than error
+sentinels (`errors.New` / `fmt.Errorf`) and blank interface assertions (a pooled or cached
+buffer shared between calls and sessions is how one call's content ends up in another's
+element) -/
 theorem C05_gen_marshal_stateless : Generated.C05.marshalGlobals = some [] := by decide
 
 /-! ### The stanza encoder changes exactly what the property allows -/
